@@ -37,6 +37,54 @@ CHECKS = {
    technique="stateless model checking with the stop as one more interleaved step: stop_all() racing the running threads at every position; the real cmdline.main with a KeyboardInterrupt alternative at every sleep",
    text="main = start_all(); stop_all(): because stop_all is main's next step, every placement of the stop relative to every read/put/get of the other threads is explored (state-cached, <=1 (2) timeouts). Second harness: the real cmdline.main(argv) with sleep as a scheduling point and Ctrl-C arriving in any sleep. Oracle: all threads end, no crash, and the observers' detections / printed lines / saved files equal split() of exactly the k blocks that were read, taken as a complete stream.",
    note="Trusted: vlib/sched.py. Ctrl-C is modelled only inside the main loop's sleep (not during start-up or during the shutdown path itself)."),
+ "C05": dict(engine="ENUM", design="4 (C05)",
+   technique="bounded-exhaustive enumeration of position-coded recordings (formats x window sizes x activity patterns incl. a partial last window) x duration tuples, split() compared region by region with a composed reference model",
+   text="For 9 formats x 6 (rate, window) combinations incl. window arguments that are not a whole number of samples, every activity pattern of <=5 (7) windows plus every partial last window, and all 56 (min,max,silence,mode) tuples with max<=3 windows, split() (function and AudioRegion method) must yield exactly the model's regions: the input's own bytes of the sample range, the input's rate/width/channels, start = whole windows, end-start = duration = samples/rate, increasing and disjoint.",
+   note="Trusted: tm.segment (cross-checked by C04) and the position-coded generator; energy levels are far from the threshold so C07's boundary cases are not re-decided here."),
+ "C06": dict(engine="ENUM", design="4 (C06)",
+   technique="bounded-exhaustive enumeration of decimal (min_dur, max_dur, max_silence, window, rate) grids with exact rational expected window counts, observed through probe signals proven discriminating; full accept/reject table",
+   text="For 11 analysis windows x 4 rates x bytes/AudioReader input, durations k*w and k*w +- 0.4 ms for k up to 25 (60): the expected counts ceil/floor/floor of the exact rational quotients (1e-9 rule) decide whether split() must raise ValueError; for accepted tuples split() is run on four probe signals whose segmentation differs for every neighbouring count, and compared with the model. The probes are proven discriminating for all tuples up to 12 windows before they are used.",
+   note="Trusted: counts() (exact Fractions from the decimal literals) and tm.segment. Quotients between 1e-10 and 1e-8 of an integer are outside the alphabet."),
+ "C07": dict(engine="ENUM", design="4 (C07)",
+   technique="bounded-exhaustive enumeration of windows over a sample alphabet x thresholds x channel selections against an exact rational / 60-digit decimal oracle, including windows that sit exactly on a threshold",
+   text="All windows of 1..3 (4) samples x 1..3 channels x widths 1/2/4 over an 11-15 value alphabet (extremes, +-powers of ten, zero), every channel selection incl. invalid ones, 6 (13) fixed thresholds plus the window's exact energy and +-1e-6 around it: is_valid must equal the exact decision (>= on the boundary), selection errors must be ValueError exactly when the statement says so, and verdicts must be monotone in the threshold.",
+   note="Trusted: hand decoding + Fraction/Decimal arithmetic in vlib/chk_energy.py. Values outside the alphabet and longer windows are not explored."),
+ "C09": dict(engine="ENUM", design="4 (C09)",
+   technique="bounded-exhaustive enumeration of recordings x 16 container kinds x alias spellings (short, long+wrong short) x duration tuples x max_read instants against the raw-bytes/long-name baseline",
+   text="6 (10) recordings in different formats x 7 duration tuples x channel selections: every container (bytes, AudioRegion method/function, wav str/Path eager/lazy, raw eager/lazy, raw via fmt/audio_format on a misleading extension, Buffer/Raw/Wave sources, AudioReader, stdin) and every alias spelling must give the same (start sample, bytes) list; max_read/mr = t must equal splitting the first round(t*rate) samples.",
+   note="PyAudioSource and pydub cannot be built here; stdin is a BytesIO."),
+ "C10": dict(engine="ENUM", design="4 (C10)",
+   technique="bounded-exhaustive enumeration of source length x format x block x hop x max_read x source kind, three reads past the end, against the by-definition block model",
+   text="Source lengths 0..3*block+2, blocks of 1..4 (6) samples incl. truncating durations, every hop 1..block, max_read on/between/beyond sample instants and 0, six source kinds: every read() must return exactly the model's block and then None three more times; too-short blocks and hop > block must be rejected.",
+   note="Rate 8 Hz so all durations are exact binary fractions."),
+ "C11": dict(engine="GRAPH", design="3.2, 4 (C11)",
+   technique="explicit-state search over the real operations of every audio source kind to closure with validated merges, plus all unpruned operation sequences to a depth, against an (open flag, cursor) reference model",
+   text="Buffer, raw-file, wav-file and stdin sources over contents of 0..6 samples in 3 formats: read(n) for 7 sizes, open, close, is_open, and for the buffer source position/position_s/position_ms get and set over the whole in/out-of-range grid and rewind. The search reaches closure (all reachable (open, cursor) states), every transition is executed, every merge is validated with all suffixes of length d, and all sequences up to depth 2-4 (3-6) are run unpruned.",
+   note="Trusted: the 60-line model in vlib/chk_sources.py. Seconds/milliseconds positions on exact sample instants only."),
+ "C15": dict(engine="ENUM+SCHED", design="4 (C15)",
+   technique="bounded-exhaustive enumeration of CLI option combinations x recordings x input kinds, each a deterministic controlled execution of the real cmdline.main compared with split(); exhaustive formatter enumeration with exact arithmetic",
+   text="The full product of -n/-m/-s/-a/-e/-d/-R (128 points) x 3 recordings x 6 input kinds (wav, wav -L, raw, raw -f, raw -L, stdin), one-at-a-time variants for -u/-M/--printf/--time-format/-q, the -o/-O/-j files, -j without -O, the documented defaults, and every millisecond of 0..130 s (+-0.4 ms, plus the hour carries) through %S/%I/%h%m%s%i. Thorough adds 16 real subprocess runs.",
+   note="Runs in-process under the SCHED scheduler's default schedule (no real sleeping). -E/-C/-p/-I/-F/-T are not explored."),
+ "C16": dict(engine="ENUM", design="4 (C16)",
+   technique="bounded-exhaustive enumeration of regions x slice bounds against Python list slicing of the sample sequence; exact rational oracle for the seconds/milliseconds views",
+   text="Regions of 0..5 (7) samples in 5 formats x every pair of bounds from {None, -len-2..len+2, +-10^9}; seconds view on dyadic rates with bounds j/(4*rate) (strict) and on 10/44100 Hz with decimal bounds (ties and 1e-9 neighbourhoods accept either neighbour); millis view equals the seconds view at t/1000; TypeError for steps and wrongly typed bounds.",
+   note="Trusted: list slicing of the decoded sample list."),
+ "C17": dict(engine="GRAPH", design="4 (C17)",
+   technique="explicit-state search over region values under +, *, /, join and slicing to a depth against sample lists, operands snapshotted around every operation; exhaustive pair tables for ==, parameters and silence",
+   text="From a pool of regions of 0..3 samples in formats that differ pairwise in exactly one parameter, every operation is applied to every value reached up to depth 3 (4); results must be the byte-level concatenation/repetition/interleaving, / must give min(n,len) contiguous pieces differing by <=1 sample that sum to the original, mismatched parameters must raise the audio-parameter error, no operand may change; == iff bytes and parameters equal for all pairs; regions are frozen; non-whole data is rejected; make_silence(d) = round(d*rate) zero samples.",
+   note="Trusted: Python bytes arithmetic."),
+ "C18": dict(engine="ENUM", design="4 (C18)",
+   technique="bounded-exhaustive enumeration of contents x formats x writers x readers (eager/lazy) and of load(skip,max_read) on/between/beyond sample instants against list slicing; numpy export against hand decoding",
+   text="Contents of 0..6 samples x widths 1/2/4 x channels 1..3 x rates x {to_file, save with placeholders, save with Path} x {wav, raw, extension-less, explicit format} x {eager, lazy} must read back identically (wav header included), exists_ok=False must refuse; load(x, skip, max_read) over 5 source kinds must equal full[round(s*r): +round(m*r)]; numpy() must have shape (channels, samples) with hand-decoded values for every alphabet value.",
+   note="Trusted: the wave module for reading headers back."),
+ "C19": dict(engine="GRAPH", design="3.2, 4 (C19)",
+   technique="explicit-state search over {read, rewind, data} histories of real recording readers to closure with validated merges, plus all unpruned histories up to a depth, against a phase/cursor/recorded-prefix model",
+   text="Recorder and AudioReader(record=True) over sources of 0..5 (7) samples x blocks 1..3 x hops 1..block x 6 max_read values: every history of read/rewind/data up to length 5 (7) and the closure of the state graph must agree with the model (data raises before the first rewind, equals exactly the consumed prefix afterwards, replay yields the identical blocks); non-recording readers expose neither data nor rewind.",
+   note="Rate 8 Hz (exact instants)."),
+ "C20": dict(engine="GRAPH", design="4 (C20)",
+   technique="explicit-state search over tokenizer uses: every first use on every stream, deduplicated by the tokenizer's leftover state, each distinct leftover state paired with every second stream and compared with a fresh tokenizer; exhaustive repeat tables for split/validator/buffer source",
+   text="For every tuple with max_length<=3 (4) (+ a seed-selected stripe of max_length 4): first use in {list, callback, generator dropped after j items, generator exhausted} on every stream of <=8 (10) frames; every distinct leftover state is followed by every stream of <=6 (8) frames and must give a fresh tokenizer's tokens made of the second stream's own frames. Plus: 3x repeated split of the same bytes/region/rewound recorder, validators over all ordered triples of windows, buffer source close/reopen.",
+   note="Leftover states are told apart by a generic snapshot of the tokenizer's attributes; two uses with the same snapshot are assumed to behave alike."),
 }
 
 NOT_YET = {}
